@@ -2,6 +2,7 @@ SPECIFICATION TraceSpec
 CONSTANTS
   Creations = {1}
   MaxSet = 1000000
+  GivesBackOnFailure = FALSE
   CreationRewinds = FALSE
   Threads = {1, 2, 3, 4}
   RefThreads = {1, 2, 3, 4}
